@@ -15,7 +15,7 @@ func init() {
 	register(&Spec{
 		ID: "C05",
 		Decides: "layout: the bytes written to the temp file are the caller's whole stream teed into the digester (no truncating wrapper), and the rename is unreachable from the digest-mismatch and size-mismatch edges; registry (chunked): the closing PUT is unreachable from the digest-mismatch and size-mismatch edges, its digest parameter and the returned descriptor come from the digester and the byte counter; " +
-			"the chunked fall-back after a failed single PUT is reachable only through a successful rewind, the other edges cancel the upload; the body function of the single PUT rewinds or refuses a retry; every failure of an upload step cancels the session before returning.",
+			"the chunked fall-back after a failed single PUT is reachable only through a successful rewind, the other edges cancel the upload, and the fall-back is skipped only over a branch about whether the source can be rewound; the body function of the single PUT rewinds or refuses a retry; every failure of an upload step cancels the session before returning.",
 		NotCovered: "the four coupled offsets of the chunk loop for every (length, chunk size, accepted range) triple (seeded change C05-1 is numeric and not detected), server minimum-chunk handling, that a conforming server checks the digest of a single PUT.",
 		Run:        runC05,
 	})
